@@ -24,6 +24,14 @@ Theorem C08_mirror_gen :
 Proof. exact pbvi_run_gen. Qed.
 Print Assumptions C08_mirror_gen.
 
+(* one sweep from gen-vectors, whatever maximisers are picked: the value checked by chk_sweep at the
+   points of the belief set is below the next horizon's optimum *)
+Theorem C08_one_sweep_lower :
+  forall (p : pomdp R) tO rM j G u a, wf0 p tO -> genl p tO rM j G -> G <> nil -> nonneg p u ->
+  (a < nA (base p))%nat -> backup_value p tO rM G u a <= Wopt p tO rM (S j) u.
+Proof. exact backup_value_le. Qed.
+Print Assumptions C08_one_sweep_lower.
+
 Theorem C08_qmdp_upper :
   forall (p : pomdp R) tO rM k u, wfp p tO rM -> nonneg p u ->
   Wopt p tO rM (S k) u <= odflt 0 (qmdp_value p (Qval (base p) (Vk p k)) u).
